@@ -7,6 +7,7 @@ for the real ``Worker``) executing the real task callables from the real
 pickled task tuples.  All messages cross a real pickling boundary.
 """
 import collections
+import collections.abc
 import pickle
 import signal
 import struct
@@ -74,6 +75,21 @@ def _frames(buf):
             break
         k += 4 + n
     return out
+
+
+class _IntIndexSeq(collections.abc.Sequence):
+    """A user-defined sequence that supports integer indexes only."""
+
+    def __init__(self, items):
+        self._items = list(items)
+
+    def __len__(self):
+        return len(self._items)
+
+    def __getitem__(self, i):
+        if not isinstance(i, int):
+            raise TypeError('indices must be integers')
+        return self._items[i]
 
 
 class SynPool(bp.Pool):
@@ -470,8 +486,15 @@ class Env:
             rec['nparts'] = 1
         elif kind in ('map', 'starmap'):
             items = list(t['items'])
+            src = items
+            if t.get('container') == 'deque':
+                src = collections.deque(items)     # a Sequence, not sliceable
+            elif t.get('container') == 'seq':
+                src = _IntIndexSeq(items)
+            elif t.get('container') == 'gen':
+                src = (x for x in items)
             if kind == 'map':
-                h = pool.map_async(fn, items, t.get('chunksize'),
+                h = pool.map_async(fn, src, t.get('chunksize'),
                                    callback=mk('ok'), error_callback=mk('err'))
             else:
                 h = pool.starmap_async(fn, items, t.get('chunksize'),
